@@ -376,15 +376,17 @@ PROPS["C06"] = {
              "than 2 s (typical: microseconds); a hit is re-run once and only a repeat is reported; the sibling route receives every metric; (b) "
              "steady-state accounting - endpoint healthy or throttled for the whole case: after completion (sentinel line through the same route) "
              "#handed = #received + slow_conn delta and every received line is intact; endpoint absent with spooling off: conn_down_no_spool "
-             "delta = #handed after a Flush barrier. Transitions (closing) and the black hole are checked for boundedness only, as the "
+             "delta = #handed after a Flush barrier. stuttering_endpoint (own sub-check, one case costs the pause): an endpoint that stays connected but reads nothing "
+             "for 11-14 s under traffic far beyond every buffer and then resumes -- same oracle as a healthy one. "
+             "Transitions (closing) and the black hole are checked for boundedness only, as the "
              "statement says. Non-trivial: the traffic demonstrably exceeded the buffers (drop counters moved / traffic sent into a non-reading "
              "endpoint). Distinct = hash(scenario parameters)."),
     "level_text": "Generated fault scenarios against real destinations over loopback TCP with a latency watchdog and exact drop-accounting identities; liveness is sampled (bounded waiting), not proven.",
     "level_note": "A wall-clock bound is an inherently fragile oracle: it is three orders of magnitude above normal and only a repeated hit is reported. Receive buffers are set on the listening socket (shrinking an established connection's buffer makes the kernel drop in-flight data).",
     "technique": "property-based testing (rapid) with fault injection at the endpoint: latency-bound watchdog + accounting identities",
     "assumptions": ["loopback TCP", "the scheduler gives the dispatcher goroutine CPU time within the bound"],
-    "quick": [R("TestPropBadEndpoint", 90)],
-    "thorough": [R("TestPropBadEndpoint", 150, shards=8, timeout=3000)],
+    "quick": [R("TestPropBadEndpoint", 90), R("TestPropStutteringEndpoint", 2)],
+    "thorough": [R("TestPropBadEndpoint", 150, shards=8, timeout=3000), R("TestPropStutteringEndpoint", 12, shards=4, timeout=3000)],
 }
 
 PROPS["C07"] = {
@@ -447,7 +449,9 @@ PROPS["C14"] = {
              "per second): 1-5 of addBlack / addRewriter / addAgg / addRoute / modRoute / modDest whose filter and pattern values come from a "
              "valid-regex grammar, from a grammar-free soup of regex metacharacters (optional ^, literal tokens, then {, {1, (?, [^, \\Q, ... -- "
              "may or may not compile) and plain fragments, followed by dispatches that evaluate the accepted filters; every command and dispatch "
-             "must return (a panic is the crash). datagram_amqp_bytes: structured, random and boundary-length (4095..9000 B) byte streams as "
+             "must return (a panic is the crash). every_ring_position: a table with a consistentHashing route (2-6 destinations, with/without "
+             "instances, optionally filtered) and routes of the other types is sent one metric for EVERY 16-bit ring position (names "
+             "precomputed), then the extremes again after a destination was removed. datagram_amqp_bytes: structured, random and boundary-length (4095..9000 B) byte streams as "
              "UDP datagrams through the listener's datagram handler and as AMQP message bodies through the real consumer loop, into a real "
              "table. pickle_bytes / plain_bytes (in-process, panics "
              "recovered): mutated CPython pickles (byte flips, truncation, hostile opcodes and lengths, random payloads, wrong frame lengths) and "
@@ -457,7 +461,7 @@ PROPS["C14"] = {
     "level_note": "kafkaMdm / pubsub / cloudWatch commands are generated only in forms that fail before their constructors need a broker (those call log.Fatalf when the service is unreachable, always the case offline). Buffer SIZES are kept within what a machine can allocate (an absurd size is memory exhaustion on request, not a crash class). A hung worker is restarted, not reported (liveness belongs to C06/C17).",
     "technique": "property-based testing (rapid) with a crash oracle on a child process (grammar + mutation generators); native go fuzzing of the pickle handler in the thorough tier",
     "assumptions": ["a panic in any goroutine terminates the relay exactly as it terminates the child", "og-rek is part of the relay's attack surface"],
-    "quick": [R("TestPropAdminAndTraffic", 90, timeout=900), R("TestPropFilterValues", 20000), R("TestPropPickleBytes", 3000), R("TestPropPlainBytes", 3000), R("TestPropDatagramAndAMQPBytes", 5000)],
-    "thorough": [R("TestPropAdminAndTraffic", 500, shards=12, timeout=3000), R("TestPropFilterValues", 400000, shards=4, timeout=3000), R("TestPropPickleBytes", 30000, shards=2, timeout=3000), R("TestPropPlainBytes", 100000, shards=2, timeout=3000), R("TestPropDatagramAndAMQPBytes", 100000, shards=2, timeout=3000),
+    "quick": [R("TestPropAdminAndTraffic", 90, timeout=900), R("TestPropFilterValues", 20000), R("TestPropEveryRingPosition", 12), R("TestPropPickleBytes", 3000), R("TestPropPlainBytes", 3000), R("TestPropDatagramAndAMQPBytes", 5000)],
+    "thorough": [R("TestPropAdminAndTraffic", 500, shards=12, timeout=3000), R("TestPropFilterValues", 400000, shards=4, timeout=3000), R("TestPropEveryRingPosition", 150, shards=2, timeout=3000), R("TestPropPickleBytes", 30000, shards=2, timeout=3000), R("TestPropPlainBytes", 100000, shards=2, timeout=3000), R("TestPropDatagramAndAMQPBytes", 100000, shards=2, timeout=3000),
                  F("FuzzPickleHandle", "180s", timeout=1200, workers=8)],
 }
